@@ -202,6 +202,37 @@ theorem render_fails_iff (fmt : Str → Except Err Str) (env : Env) (compactF : 
     | error e' => simp
     | ok y => simp [pure, Except.pure]
 
+/-- For every token stream that satisfies the tokenizer contract `WF` (single-line tokens, in
+order, consecutive rows, `string = line[start:end]`, `line` = the physical line `phys row`,
+no newline before a token starts), the highlighted lines with the `<theme>…</>` tags
+stripped and `\<` un-escaped (`plainHL`) are, row by row, the physical source lines up to the
+end of the last token of the row, newline stripped (`expect`): output line `i` is a prefix
+of source line `i + 1` (what the tokenizer does not report as a token - trailing blanks
+before a NEWLINE, an explicit line-joining backslash - is not shown).  The rendered string
+of a line is the concatenation of its pieces `<style>escape(text)</>`, and un-escaping
+gives the text back. -/
+theorem lines_verbatim (env : Env) (phys : Nat → Str) (toks : List Tok) (h : WF env phys 1 0 toks) :
+    (splitToLines env toks).map plainHL = expect env phys 1 0 toks ∧
+    (∀ (i : Nat) (s : Str), ((splitToLines env toks).map plainHL)[i]? = some s →
+        ∃ k, s = rstripNL ((phys (i + 1)).take k) ∨ s = (phys (i + 1)).take k) ∧
+    (∀ hl ∈ splitToLines env toks, ∀ sg ∈ hl,
+        match sg.1 with
+        | some th => renderSeg sg = wrap th.style (escape sg.2) ∧ unescape (escape sg.2) = sg.2
+        | none => renderSeg sg = sg.2) := by
+  have key : (splitToLines env toks).map plainHL = expect env phys 1 0 toks := by
+    have := splitGo_expect env phys toks St.init 1 0 (inv_init phys) h
+    simpa [splitToLines, St.init] using this
+  refine ⟨key, ?_, ?_⟩
+  · intro i s hs
+    rw [key] at hs
+    have := expect_rows env phys toks 1 0 h i s hs
+    rwa [Nat.add_comm 1 i] at this
+  · intro hl _ sg _
+    obtain ⟨ty, t⟩ := sg
+    cases ty with
+    | none => rfl
+    | some th => exact ⟨rfl, unescape_escape t⟩
+
 /-- pastel's last step (`.replace("\\<", "<")`) gives the message back from its escaped
 form - for every message, also one that contains `\<` itself. -/
 theorem escape_roundtrip (m : Str) : unescape (escape m) = m := unescape_escape m
@@ -213,6 +244,33 @@ example :
       = [(5, false), (6, false), (7, true), (8, false), (9, false)]) ∧
     ((codeSnippet (List.replicate 12 []) 1 4 4).map (·.number) = [1, 2, 3, 4, 5, 6, 7, 8, 9]) ∧
     ((codeSnippet [[]] 3 4 4).map (·.marked) = [false]) := by decide
+
+/-- the token stream CPython's tokenizer reports for `x = "<b>"⏎y⏎` (encoding token included) -/
+def demoToks : List Tok :=
+  let l1 : Str := ['x', ' ', '=', ' ', '"', '<', 'b', '>', '"', '\n']
+  let l2 : Str := ['y', '\n']
+  [ { kind := .other, text := ['u', 't', 'f', '-', '8'], srow := 0, scol := 0, erow := 0, ecol := 0, line := [] },
+    { kind := .other, text := ['x'], srow := 1, scol := 0, erow := 1, ecol := 1, line := l1 },
+    { kind := .op, text := ['='], srow := 1, scol := 2, erow := 1, ecol := 3, line := l1 },
+    { kind := .str, text := ['"', '<', 'b', '>', '"'], srow := 1, scol := 4, erow := 1, ecol := 9, line := l1 },
+    { kind := .newline, text := ['\n'], srow := 1, scol := 9, erow := 1, ecol := 10, line := l1 },
+    { kind := .other, text := ['y'], srow := 2, scol := 0, erow := 2, ecol := 1, line := l2 },
+    { kind := .newline, text := ['\n'], srow := 2, scol := 1, erow := 2, ecol := 2, line := l2 },
+    { kind := .endmarker, text := [], srow := 3, scol := 0, erow := 3, ecol := 0, line := [] } ]
+
+def demoPhys : Nat → Str
+  | 1 => ['x', ' ', '=', ' ', '"', '<', 'b', '>', '"', '\n']
+  | 2 => ['y', '\n']
+  | _ => []
+
+/-- Non-vacuity of `lines_verbatim`: the demo stream satisfies the contract, and the
+highlighter shows `x = "<b>"` and `y` - the tag-like text verbatim. -/
+example : WF ⟨[], []⟩ demoPhys 1 0 demoToks ∧
+    (splitToLines ⟨[], []⟩ demoToks).map plainHL =
+      [['x', ' ', '=', ' ', '"', '<', 'b', '>', '"'], ['y']] := by
+  constructor
+  · simp [WF, demoToks, demoPhys, classify, slice, lit]
+  · decide
 
 /-- Non-vacuity: escaping and un-escaping `a\<b><` . -/
 example : escape ['a', '\\', '<', 'b', '>', '<'] = ['a', '\\', '\\', '<', 'b', '>', '\\', '<'] ∧
